@@ -1,0 +1,82 @@
+//go:build verif
+
+package json
+
+import "sync"
+
+// Protocol trace for the verification harness (/verif, property C29).
+// Every channel operation of execution.go / workers.go logs one event.  Events that make something
+// available to another goroutine (enqueue, token release, done) are logged before the operation,
+// events that consume (take, receive, token acquire) and the outcome of a select after it.
+
+type VerifEvent struct {
+	Event string
+	Args  []int
+}
+
+var (
+	verifTraceMu    sync.Mutex
+	verifTraceOn    bool
+	verifTraceLog   []VerifEvent
+	verifTraceDelay func(event string)
+)
+
+func verifTrace(event string, args ...int) {
+	verifTraceMu.Lock()
+	on, delay := verifTraceOn, verifTraceDelay
+	if on {
+		verifTraceLog = append(verifTraceLog, VerifEvent{Event: event, Args: append([]int(nil), args...)})
+	}
+	verifTraceMu.Unlock()
+	if on && delay != nil {
+		delay(event)
+	}
+}
+
+func verifB(b bool) int {
+	if b {
+		return 1
+	}
+	return 0
+}
+
+func verifLine0(lines []int) int {
+	if len(lines) == 0 {
+		return -1
+	}
+	return lines[0]
+}
+
+func verifOutLine0(out []jobOutRecord) int {
+	if len(out) == 0 {
+		return -1
+	}
+	return out[0].line
+}
+
+// VerifTraceStart clears the log and switches logging on; delay (may be nil) runs after each event is logged.
+func VerifTraceStart(delay func(event string)) {
+	verifTraceMu.Lock()
+	verifTraceOn, verifTraceLog, verifTraceDelay = true, nil, delay
+	verifTraceMu.Unlock()
+}
+
+// VerifTraceAppend lets the harness log its own events (cancellation of the caller's context).
+func VerifTraceAppend(event string, args ...int) { verifTrace(event, args...) }
+
+func VerifTraceSnapshot() []VerifEvent {
+	verifTraceMu.Lock()
+	defer verifTraceMu.Unlock()
+	return append([]VerifEvent(nil), verifTraceLog...)
+}
+
+func VerifTraceStop() []VerifEvent {
+	verifTraceMu.Lock()
+	defer verifTraceMu.Unlock()
+	out := verifTraceLog
+	verifTraceOn, verifTraceLog, verifTraceDelay = false, nil, nil
+	return out
+}
+
+// VerifChannelCaps reports the capacities the running code really uses (read from the live channel).
+func VerifJobsCap() int { return cap(parserWorkReceiveChannel) }
